@@ -104,12 +104,14 @@ def rule_apply_all(ctx):
               "the loop runs over `%s`" % ast.unparse(lp.iter), lp)
     c = lp.target.id if isinstance(lp.target, ast.Name) else "c"
     skips = [s for s in lp.body if isinstance(s, ast.If)]
-    okskip = all(ast.unparse(s.test) == "isinstance(%s, MinimumTrials)" % c and [ast.unparse(x) for x in s.body] == ["continue"] and not s.orelse for s in skips)
+    # canonical path condition of the apply call: nothing, or `c is not a MinimumTrials` (guard clause with continue, or nesting)
+    applies_ = [x for x in F.stmts if isinstance(x, ast.Expr) and isinstance(x.value, ast.Call) and dotted(x.value.func) == "%s.apply" % c]
+    okskip = len(applies_) == 1 and F.conds(applies_[0]) in ([], ["not(isinstance(%s, MinimumTrials))" % c])
     ctx.check(okskip and len(skips) <= 1, R, f, "only MinimumTrials skipped", "the only constraint class not applied is MinimumTrials",
               "build_backend_request skips constraints under %s" % [ast.unparse(s.test) for s in skips], skips[0] if skips else lp)
-    appl = [s for s in lp.body if isinstance(s, ast.Expr) and ast.unparse(s.value) == "%s.apply(self, backend_request)" % c]
+    appl = [s for s in statements(lp) if isinstance(s, ast.Expr) and ast.unparse(s.value) == "%s.apply(self, backend_request)" % c]
     others = [s for s in lp.body if s not in skips and s not in appl]
-    ctx.check(len(appl) == 1 and not others and lp.body[-1] is appl[0], R, f, "apply", "every other constraint is applied to this block and this request",
+    ctx.check(len(appl) == 1 and not others, R, f, "apply", "every other constraint is applied to this block and this request",
               "the loop body of build_backend_request changed: %s" % [ast.unparse(s)[:60] for s in lp.body])
     rets = [ast.unparse(s) for s in statements(f.node) if isinstance(s, ast.Return)]
     ctx.check(rets == ["return backend_request"], R, f, "returned", "the request that was filled is returned", "build_backend_request returns %s" % rets)
@@ -347,8 +349,12 @@ def rule_pipeline(ctx):
     ctx.check(Facts(gj).returns() == ["cnf_to_json(self.cnfs)"] and Facts(gr).returns() == ["[_b0.to_generation_request() for _b0 in self.ll_requests]"], R, br, "accessors",
               "all clause sets and all requests of the backend request are handed over", "BackendRequest accessors changed")
     st = ctx.fn("main:synthesize_trials")
-    body = ast.unparse(st.node)
-    ctx.check("with_implied = block.add_implied_levels(e)" in body and "for e in raw_samples:" in body, R, st, "implied levels", "every raw sample is completed with the implied factors",
+    # by role: a loop over raw_samples whose own variable is handed to block.add_implied_levels
+    ok_impl = False
+    for lp_ in [x for x in statements(st.node) if isinstance(x, ast.For) and dotted(x.iter) == "raw_samples" and isinstance(x.target, ast.Name)]:
+        ok_impl = ok_impl or any(isinstance(c_, ast.Call) and dotted(c_.func) == "block.add_implied_levels" and len(c_.args) == 1 and dotted(c_.args[0]) == lp_.target.id
+                                 for c_ in ast.walk(lp_))
+    ctx.check(ok_impl, R, st, "implied levels", "every raw sample is completed with the implied factors",
               "synthesize_trials no longer completes every raw sample with add_implied_levels")
     C15.gate_rule(ctx, "C01.gate")
 
